@@ -37,7 +37,13 @@ def configs(tier):
         dict(name="sock + timer + post in one batch", sample=n,
              over=dict(Kinds=["sock"], NT=1, MaxTick=2, MaxPosts=1, Cmds={"read", "cancel", "close", "tonce", "tcancel", "post"},
                        Envs={"send", "tick"}, MaxCmds=mc)),
+        dict(name="reconnect: a handler closes its conn and opens the successor (which gets the freed descriptor number)", sample=n,
+             over=dict(Kinds=["sock", "sock"], Late={2}, Cmds={"read", "close", "open"}, Envs={"send", "peerclose"},
+                       MaxOps=3, MaxCmds=mc + 2, HBudget=3)),
     ] + ([] if q else [
+        dict(name="reconnect over FIFOs and a conn", sample=n,
+             over=dict(Kinds=["pipeR", "pipeR", "sock"], Late={2}, Cmds={"read", "cancel", "close", "open"},
+                       Envs={"send", "peerclose"}, MaxOps=3, MaxCmds=mc + 1, HBudget=3)),
         dict(name="random long scenarios, 3 objects", sim=3000,
              over=dict(Kinds=["sock", "pipeR", "sock"], NT=1, MaxTick=4, MaxPosts=2, MaxOps=12, MaxCmds=24, HBudget=2, MaxData=2,
                        Cmds={"read", "write", "cancel", "close", "tonce", "tcancel", "post"},
